@@ -1790,6 +1790,13 @@ feature! {
         }
 
         fn register_callsite(&self, metadata: &'static Metadata<'static>) -> Interest {
+            // An empty `Vec` has no opinion, like `Option::None`: answering
+            // `never` would disable the callsite for every other subscriber
+            // in the stack.
+            if self.is_empty() {
+                return Interest::always();
+            }
+
             // Return highest level of interest.
             let mut interest = Interest::never();
             for s in self {
@@ -1879,6 +1886,13 @@ feature! {
             // If downcasting to `Self`, return a pointer to `self`.
             if id == TypeId::of::<Self>() {
                 return Some(NonNull::from(self).cast());
+            }
+
+            // An empty `Vec` is treated like `Option::None` when max level
+            // hints are combined: its `OFF` hint only applies if no other
+            // subscriber has an opinion.
+            if id == TypeId::of::<NoneLayerMarker>() && self.is_empty() {
+                return Some(NonNull::from(&NONE_LAYER_MARKER).cast());
             }
 
             // Someone is looking for per-subscriber filters. But, this `Vec`
